@@ -102,7 +102,8 @@ func (ra *RouterAdvertisement) marshal() ([]byte, error) {
 
 	b = append(b, ob...)
 
-	return b, nil
+	// prepend the ICMPv6 header (type, code, checksum); icmp6SendPacket fills in the checksum
+	return append([]byte{byte(ra.Type()), 0, 0, 0}, b...), nil
 }
 
 /**
@@ -174,7 +175,8 @@ func (rs *RouterSolicitation) marshal() ([]byte, error) {
 
 	b = append(b, ob...)
 
-	return b, nil
+	// prepend the ICMPv6 header (type, code, checksum); icmp6SendPacket fills in the checksum
+	return append([]byte{byte(rs.Type()), 0, 0, 0}, b...), nil
 }
 
 /**
